@@ -55,6 +55,15 @@ def run_native(fn, args, kwargs):
         return ("raise", e)
 
 
+def _lower_out(contract, out, inputs):
+    hook = getattr(contract, "native_lower", None)
+    if hook is not None:
+        t = hook(out, inputs)
+        if t is not None:
+            return t
+    return lower(out)
+
+
 def _try_lower(v):
     try:
         return lower(v)
@@ -104,12 +113,12 @@ def replay_inputs(contract, inputs):
             A["__effects__"] = contract.native_effects(inputs)
         if kind == "return":
             rep["outcome"] = {"return": describe(out)}
-            clauses = contract.ensures(A, lower(out))
+            clauses = contract.ensures(A, _lower_out(contract, out, inputs))
             prefix = "post"
         else:
             rep["outcome"] = {"raise": type(out).__name__, "message": str(out)[:500]}
             try:
-                et = lower(out)
+                et = _lower_out(contract, out, inputs)
             except V.LowerError:
                 et = V.VAtom(z3.IntVal(V.REG.atom(type(out), type(out).__name__)))
             clauses = contract.on_raise(A, type(out), et)
